@@ -91,7 +91,7 @@ def _case(draw):
         ops.append(["new", i, how, d.pick(["commonmark", "js-default", "zero", "default"]), opts])
     for _ in range(d.i(2, 22)):
         i = d.i(0, n_inst - 1)
-        k = d.weighted([(30, "call"), (12, "rules"), (12, "opt"), (4, "set_shared"), (5, "render_rule"), (5, "reset_block"), (4, "configure"), (14, "probe")])
+        k = d.weighted([(30, "call"), (12, "rules"), (12, "opt"), (4, "set_shared"), (5, "render_rule"), (5, "reset_block"), (4, "configure"), (3, "mutate_preset"), (14, "probe")])
         if k == "call":
             doc = d.pick(DOCS) if d.chance(0.75) else gen.any_doc_d(d)
             ops.append(["call", i, d.pick(["parse", "render", "parseInline", "renderInline"]), doc, d.pick(["none", "fresh", "env0", "env1"])])
@@ -108,6 +108,8 @@ def _case(draw):
             ops.append(["reset_block", i, [d.pick(RULE_NAMES) for _ in range(d.i(1, 2))], d.pick(DOCS), d.chance(0.3)])
         elif k == "configure":
             ops.append(["configure", i, d.pick(["commonmark", "zero"])])
+        elif k == "mutate_preset":
+            ops.append(["mutate_preset", i, d.pick(["zero", "commonmark"]), d.pick(["inline", "block", "core"]), d.pick(RULE_NAMES)])
         else:
             ops.append(["probe", i, d.pick(DOCS) if d.chance(0.8) else gen.any_doc_d(d), d.pick(["none", "env0", "env1"])])
     ops.append(["probe", d.i(0, n_inst - 1), d.pick(DOCS[:4]), "none"])
@@ -226,6 +228,14 @@ def check(case) -> Res:
                     other = cands[n % len(cands)]
                     odoc = DOCS[n % len(DOCS)]
                     before_other = (insts[other].render(odoc), dump(insts[other].parse(odoc)), dict(insts[other].options), insts[other].get_active_rules())
+            if k == "mutate_preset":
+                # the caller customises a preset dict it obtained from make() - its own copy, nobody else's business
+                _, _, pname, chain, rname = op
+                comp = user_preset[pname]["components"].get(chain) or {}
+                if isinstance(comp.get("rules"), list):
+                    comp["rules"].append(rname)
+                    user_preset_snap[pname]["components"][chain]["rules"].append(rname)
+                continue
             if k == "call":
                 _, _, fn, doc, envmode = op
                 if envmode == "none":
